@@ -96,8 +96,7 @@ def check(ctx):
             ok_bits = pc <= nb and (1 << nb) <= cols and 1 <= nb < 64
             seen = {}
             collide = None
-            if not ok_bits:
-                total += 1 << pc
+            total += 1 << pc
             if ok_bits:
                 mg = magics[kind][sq]
                 sh = 64 - nb
@@ -105,7 +104,6 @@ def check(ctx):
                 while True:
                     idx = ((b * mg) & M64) >> sh
                     a = attack(rays, b)
-                    total += 1
                     o = seen.get(idx)
                     if o is None:
                         seen[idx] = a
